@@ -3,7 +3,9 @@ package props
 import (
 	"bytes"
 	"fmt"
+	"github.com/tobgu/qframe/config/csv"
 	"io"
+	"strings"
 	"testing"
 	"time"
 
@@ -53,7 +55,56 @@ func csvPosClass(data []byte, delim byte, k int) string {
 func TestC15(t *testing.T) {
 	rapid.Check(t, func(t *rapid.T) {
 		kind := rapid.SampledFrom([]string{"readcsv", "readcsv", "readjson", "tocsv", "tojson", "tosql", "readsql"}).Draw(t, "kind")
+		if kind == "readcsv" && rapid.IntRange(0, 11).Draw(t, "longdoc") == 0 {
+			kind = "readcsv-long"
+		}
 		switch kind {
+		case "readcsv-long":
+			// documents of a thousand and more rows, read with and without a RowCountHint (the reader changes the way it
+			// stores and fetches things once a document turns out long): the reader fails at sampled positions - every
+			// position near the thousandth row and near the end, every 61st one elsewhere
+			rows := rapid.SampledFrom([]int{999, 1000, 1001, 1200, 2100}).Draw(t, "longrows")
+			hint := rapid.SampledFrom([]int{0, 1500, 2001, 2001, 5000}).Draw(t, "hint")
+			var sb strings.Builder
+			sb.WriteString("i,s\n")
+			rowStart := make([]int, 0, rows)
+			for r := 0; r < rows; r++ {
+				rowStart = append(rowStart, sb.Len())
+				fmt.Fprintf(&sb, "%d,v%d\n", r, r%7)
+			}
+			data := []byte(sb.String())
+			var fns []csv.ConfigFunc
+			if hint > 0 {
+				fns = append(fns, csv.RowCountHint(hint))
+			}
+			rerr := rapid.SampledFrom(faults.ReadErrors).Draw(t, "readerr")
+			chunk := rapid.SampledFrom([]int{1 << 20, 4096, 1000, 333}).Draw(t, "chunk")
+			desc := func() string {
+				return fmt.Sprintf("ReadCSV of %d rows (%d bytes) with RowCountHint(%d) under reader faults, reads of %d bytes, error %#v", rows, len(data), hint, chunk, rerr)
+			}
+			positions := 0
+			near := func(k int) bool {
+				a, b := rowStart[min(rows-1, 995)], rowStart[min(rows-1, 1003)]
+				return k < 8 || k >= len(data)-200 || (k >= a && k <= b+8)
+			}
+			for k := 0; k < len(data); k++ {
+				if !near(k) && k%61 != 0 {
+					continue
+				}
+				rd := hx.NewChunkReader(data, []int{chunk}, false)
+				rd.FailAt, rd.FailErr = k, rerr
+				var res qframe.QFrame
+				if perr := hx.Safely(func() { res = qframe.ReadCSV(rd, fns...) }); perr != nil {
+					t.Fatalf("ReadCSV panicked with the reader failing after %d of %d bytes: %v\n%s", k, len(data), perr, desc())
+				}
+				if res.Err == nil {
+					t.Fatalf("the reader failed after %d of %d bytes but ReadCSV returned an error-free frame with %d of %d rows\n%s", k, len(data), res.Len(), rows, desc())
+				}
+				positions++
+			}
+			evC15.ClassN("readcsv-long:positions", int64(positions))
+			evC15.AddEvals(int64(positions) - 1)
+			evC15.Case(true, desc, "kind:readcsv-long")
 		case "readcsv":
 			c := genCSVCase(t)
 			if len(c.doc.Rows) > 100 {
